@@ -20,6 +20,7 @@ import (
 	"math/big"
 	"os"
 	"path/filepath"
+	"regexp"
 	"sort"
 	"strings"
 )
@@ -567,7 +568,359 @@ func genFacts() string {
 		}
 		fmt.Fprintf(&b, "  (%q, %s)%s\n", fn, leanStrList(orderedStorageCalls(findFunc(fn))), sep)
 	}
-	b.WriteString("]\n\nend Atree.Gen\n")
+	b.WriteString("]\n\n")
+	b.WriteString(genArgCheckPrefix())
+	b.WriteString("\nend Atree.Gen\n")
+	return b.String()
+}
+
+// ---------------------------------------------------------------------------------------------
+// C18: statement order in the request-level functions.
+//
+// For every site of a request-level function at which a request can still be refused
+//   - "check:<Ctor>"   a `return ..., New<X>Error(...)` statement,
+//   - "descend:<callee>" a call of Get/Set/Insert/Remove/get/set/remove on a child slab, an element,
+//     the root (the callee has its own checks),
+// the list of statement KINDS that may have been executed before it, in source order:
+//   call:<callee>      any other call (evaluated arguments first)
+//   descend:<callee>   as above
+//   mutate:<lhs>       an assignment / inc / dec whose target is not a plain local identifier
+//   defer:<callee>     a deferred call
+//   check:<Ctor>       an earlier `if c { return ..., New<X>Error(..) }` that did not fire
+//   exit:err / exit:ok an earlier branch that always returns (with a non-constructor error / with a nil
+//                      error or a non-error result); the statements INSIDE such a branch are not on
+//                      the path to the site and are left out
+// Loop bodies are included once in front of the sites inside them (earlier iterations).
+// The classification of the kinds (what is an effect, which constructors are argument errors) is
+// NOT done here: it is part of the Lean statement (Props/C18.lean).
+
+var argCheckFuncs = []string{
+	"Array.Get", "Array.Set", "Array.set", "Array.Insert", "Array.Append", "Array.Remove", "Array.remove",
+	"Array.RangeIterator", "Array.ReadOnlyRangeIteratorWithMutationCallback",
+	"ArrayDataSlab.Get", "ArrayDataSlab.Set", "ArrayDataSlab.Insert", "ArrayDataSlab.Remove",
+	"ArrayMetaDataSlab.childSlabIndexInfo",
+	"ArrayMetaDataSlab.Get", "ArrayMetaDataSlab.Set", "ArrayMetaDataSlab.Insert", "ArrayMetaDataSlab.Remove",
+	"OrderedMap.Has", "OrderedMap.Get", "OrderedMap.get", "OrderedMap.Set", "OrderedMap.set",
+	"OrderedMap.Remove", "OrderedMap.remove",
+	"MapDataSlab.Set", "MapDataSlab.Remove",
+	"MapMetaDataSlab.getChildSlabByDigest", "MapMetaDataSlab.Get", "MapMetaDataSlab.Set", "MapMetaDataSlab.Remove",
+	"hkeyElements.getElement", "hkeyElements.Get", "hkeyElements.Set", "hkeyElements.Remove",
+	"singleElements.get", "singleElements.Get", "singleElements.Set", "singleElements.Remove",
+	"singleElement.Get", "singleElement.Set", "singleElement.Remove",
+	"inlineCollisionGroup.Get", "inlineCollisionGroup.Set", "inlineCollisionGroup.Remove",
+	"externalCollisionGroup.Get", "externalCollisionGroup.Set", "externalCollisionGroup.Remove",
+}
+
+var skipCallees = map[string]bool{
+	"len": true, "cap": true, "uint64": true, "uint32": true, "uint16": true, "uint8": true, "uint": true,
+	"int": true, "int64": true, "int32": true, "byte": true, "Digest": true, "element": true,
+	"MapKey": true, "MapValue": true, "SlabIDStorable": true, "make": true, "new": true,
+}
+
+var descendMethods = map[string]bool{
+	"Get": true, "Set": true, "Insert": true, "Remove": true, "get": true, "set": true, "remove": true,
+}
+
+var indexRe = regexp.MustCompile(`\[[^\[\]]*\]`)
+
+type site struct {
+	kind string
+	pre  []string
+}
+
+type argWalker struct {
+	errLast bool // the function's last result is of type error
+	sites   []site
+}
+
+func (w *argWalker) emit(kind string, pre []string) {
+	w.sites = append(w.sites, site{kind: kind, pre: append([]string(nil), pre...)})
+}
+
+// callKind classifies a call by its printed callee.
+func callKind(ce *ast.CallExpr) string {
+	name := exprString(ce.Fun)
+	if se, ok := ce.Fun.(*ast.SelectorExpr); ok && descendMethods[se.Sel.Name] {
+		base := exprString(se.X)
+		if !strings.HasSuffix(base, "torage") && base != "slices" && base != "errors" {
+			return "descend:" + name
+		}
+	}
+	return "call:" + name
+}
+
+// exprKinds appends the kinds of the calls in e (arguments before the call), emitting a site for
+// every descend call.  Function literals are not entered.
+func (w *argWalker) exprKinds(e ast.Node, pre []string) []string {
+	if e == nil {
+		return pre
+	}
+	ast.Inspect(e, func(n ast.Node) bool {
+		switch x := n.(type) {
+		case *ast.FuncLit:
+			return false
+		case *ast.CallExpr:
+			if se, ok := x.Fun.(*ast.SelectorExpr); ok {
+				pre = w.exprKinds(se.X, pre)
+			} else if _, ok := x.Fun.(*ast.Ident); !ok {
+				pre = w.exprKinds(x.Fun, pre)
+			}
+			for _, a := range x.Args {
+				pre = w.exprKinds(a, pre)
+			}
+			name := exprString(x.Fun)
+			if skipCallees[name] {
+				return false
+			}
+			k := callKind(x)
+			if strings.HasPrefix(k, "descend:") {
+				w.emit(k, pre)
+			}
+			pre = append(pre, k)
+			return false
+		}
+		return true
+	})
+	return pre
+}
+
+func lhsKind(e ast.Expr) string {
+	if _, ok := e.(*ast.Ident); ok {
+		return ""
+	}
+	return "mutate:" + indexRe.ReplaceAllString(exprString(e), "[]")
+}
+
+func isErrorCtor(e ast.Expr) (string, bool) {
+	ce, ok := e.(*ast.CallExpr)
+	if !ok {
+		return "", false
+	}
+	id, ok := ce.Fun.(*ast.Ident)
+	if !ok || !strings.HasPrefix(id.Name, "New") || !strings.Contains(id.Name, "Error") {
+		return "", false
+	}
+	return id.Name, true
+}
+
+// retSummary: how a return statement leaves the function.
+func (w *argWalker) retSummary(rs *ast.ReturnStmt) string {
+	if !w.errLast || len(rs.Results) == 0 {
+		return "exit:ok"
+	}
+	last := rs.Results[len(rs.Results)-1]
+	if name, ok := isErrorCtor(last); ok {
+		return "check:" + name
+	}
+	if id, ok := last.(*ast.Ident); ok && id.Name == "nil" {
+		return "exit:ok"
+	}
+	if len(rs.Results) == 1 {
+		if ce, ok := last.(*ast.CallExpr); ok {
+			if strings.HasPrefix(exprString(ce.Fun), "wrapError") {
+				return "exit:err"
+			}
+			// `return f(...)`: the callee decides
+			return "exit:" + callKind(ce)
+		}
+	}
+	return "exit:err"
+}
+
+func terminates(stmts []ast.Stmt) bool {
+	if len(stmts) == 0 {
+		return false
+	}
+	switch x := stmts[len(stmts)-1].(type) {
+	case *ast.ReturnStmt:
+		return true
+	case *ast.BlockStmt:
+		return terminates(x.List)
+	case *ast.IfStmt:
+		if x.Else == nil {
+			return false
+		}
+		eb, ok := x.Else.(*ast.BlockStmt)
+		if !ok {
+			return terminates([]ast.Stmt{x.Else}) && terminates(x.Body.List)
+		}
+		return terminates(x.Body.List) && terminates(eb.List)
+	case *ast.ExprStmt:
+		if ce, ok := x.X.(*ast.CallExpr); ok {
+			if id, ok := ce.Fun.(*ast.Ident); ok && id.Name == "panic" {
+				return true
+			}
+		}
+	}
+	return false
+}
+
+// block walks a statement list; returns the kinds accumulated on the fall-through path.
+func (w *argWalker) block(stmts []ast.Stmt, pre []string) []string {
+	for _, s := range stmts {
+		pre = w.stmt(s, pre)
+	}
+	return pre
+}
+
+// branch walks a branch body entered with `pre` and returns what the branch contributes to the
+// statements AFTER the enclosing statement: everything if it can fall through, only its exits if
+// it always returns.
+func (w *argWalker) branch(stmts []ast.Stmt, pre []string) []string {
+	n := len(pre)
+	post := w.block(stmts, pre)
+	if !terminates(stmts) {
+		return post[n:]
+	}
+	var out []string
+	for _, k := range post[n:] {
+		if strings.HasPrefix(k, "exit:") || strings.HasPrefix(k, "check:") {
+			out = append(out, k)
+		}
+	}
+	return out
+}
+
+func (w *argWalker) stmt(s ast.Stmt, pre []string) []string {
+	switch x := s.(type) {
+	case nil:
+		return pre
+	case *ast.BlockStmt:
+		return w.block(x.List, pre)
+	case *ast.LabeledStmt:
+		return w.stmt(x.Stmt, pre)
+	case *ast.ExprStmt:
+		return w.exprKinds(x.X, pre)
+	case *ast.DeclStmt:
+		return w.exprKinds(x.Decl, pre)
+	case *ast.AssignStmt:
+		for _, r := range x.Rhs {
+			pre = w.exprKinds(r, pre)
+		}
+		for _, l := range x.Lhs {
+			pre = w.exprKinds(l, pre)
+			if k := lhsKind(l); k != "" && x.Tok != token.DEFINE {
+				pre = append(pre, k)
+			}
+		}
+		return pre
+	case *ast.IncDecStmt:
+		if k := lhsKind(x.X); k != "" {
+			pre = append(pre, k)
+		}
+		return pre
+	case *ast.DeferStmt:
+		for _, a := range x.Call.Args {
+			pre = w.exprKinds(a, pre)
+		}
+		return append(pre, "defer:"+exprString(x.Call.Fun))
+	case *ast.GoStmt:
+		return append(pre, "go:"+exprString(x.Call.Fun))
+	case *ast.ReturnStmt:
+		for i, r := range x.Results {
+			if i == len(x.Results)-1 {
+				if name, ok := isErrorCtor(r); ok && w.errLast {
+					// arguments of the constructor, then the site
+					for _, a := range r.(*ast.CallExpr).Args {
+						pre = w.exprKinds(a, pre)
+					}
+					w.emit("check:"+name, pre)
+					continue
+				}
+			}
+			pre = w.exprKinds(r, pre)
+		}
+		return append(pre, w.retSummary(x))
+	case *ast.IfStmt:
+		pre = w.stmt(x.Init, pre)
+		pre = w.exprKinds(x.Cond, pre)
+		out := append([]string(nil), pre...)
+		out = append(out, w.branch(x.Body.List, append([]string(nil), pre...))...)
+		if x.Else != nil {
+			out = append(out, w.branch([]ast.Stmt{x.Else}, append([]string(nil), pre...))...)
+		}
+		return out
+	case *ast.ForStmt:
+		pre = w.stmt(x.Init, pre)
+		pre = w.exprKinds(x.Cond, pre)
+		// earlier iterations: body and post statement once, silently (sites are emitted below)
+		silent := &argWalker{errLast: w.errLast}
+		pre = append(pre, silent.branch(x.Body.List, nil)...)
+		pre = silent.stmt(x.Post, pre)
+		w.block(x.Body.List, append([]string(nil), pre...))
+		return pre
+	case *ast.RangeStmt:
+		pre = w.exprKinds(x.X, pre)
+		silent := &argWalker{errLast: w.errLast}
+		pre = append(pre, silent.branch(x.Body.List, nil)...)
+		w.block(x.Body.List, append([]string(nil), pre...))
+		return pre
+	case *ast.SwitchStmt:
+		pre = w.stmt(x.Init, pre)
+		pre = w.exprKinds(x.Tag, pre)
+		out := append([]string(nil), pre...)
+		for _, c := range x.Body.List {
+			cc := c.(*ast.CaseClause)
+			p := append([]string(nil), pre...)
+			for _, e := range cc.List {
+				p = w.exprKinds(e, p)
+			}
+			out = append(out, w.branch(cc.Body, p)...)
+		}
+		return out
+	case *ast.TypeSwitchStmt:
+		pre = w.stmt(x.Init, pre)
+		pre = w.stmt(x.Assign, pre)
+		out := append([]string(nil), pre...)
+		for _, c := range x.Body.List {
+			cc := c.(*ast.CaseClause)
+			out = append(out, w.branch(cc.Body, append([]string(nil), pre...))...)
+		}
+		return out
+	}
+	return pre
+}
+
+func argSites(fd *ast.FuncDecl) []site {
+	w := &argWalker{}
+	if fd.Type.Results != nil && len(fd.Type.Results.List) > 0 {
+		last := fd.Type.Results.List[len(fd.Type.Results.List)-1]
+		if id, ok := last.Type.(*ast.Ident); ok && id.Name == "error" {
+			w.errLast = true
+		}
+	}
+	w.block(fd.Body.List, nil)
+	return w.sites
+}
+
+func genArgCheckPrefix() string {
+	var b strings.Builder
+	b.WriteString("/-- C18: for every site of a request-level function at which the request can still be refused\n")
+	b.WriteString("    (`check:<error constructor>` = a `return …, New…Error(…)`; `descend:<callee>` = a call of\n")
+	b.WriteString("    Get/Set/Insert/Remove on the root, a child slab or an element): (function, site, kinds of the\n")
+	b.WriteString("    statements that may have run before it, in source order).  See harness/cmd/extract. -/\n")
+	b.WriteString("def argCheckPrefix : List (String × String × List String) := [\n")
+	first := true
+	for _, fn := range argCheckFuncs {
+		fd := findFunc(fn)
+		var ss []site
+		if fd == nil || fd.Body == nil {
+			ss = []site{{kind: "missing", pre: nil}}
+		} else {
+			ss = argSites(fd)
+			if len(ss) == 0 {
+				ss = []site{{kind: "none", pre: nil}}
+			}
+		}
+		for _, s := range ss {
+			if !first {
+				b.WriteString(",\n")
+			}
+			first = false
+			fmt.Fprintf(&b, "  (%q, %q, %s)", fn, s.kind, leanStrList(s.pre))
+		}
+	}
+	b.WriteString("\n]\n")
 	return b.String()
 }
 
